@@ -931,3 +931,124 @@ func init() {
 			return obs
 		}})
 }
+
+// HEAD.quoted-is-data — C07: eval returns a quoted symbol as a symbol, so a list
+// whose head is `'inc` or `'unquote` is not a call of inc and not an unquote
+// form (`(list 'inc 41)` builds exactly such a list).  Every place that decides
+// "this list is an operator form" by the NAME of its head must look at the
+// head's quoted flag first, or it disagrees with eval: macroexpand keeps
+// expanding a form that eval refuses, and quasiquote substitutes into a list
+// the template only mentions as data.
+func init() {
+	register(&Rule{ID: "HEAD.quoted-is-data", Floor: 4,
+		Doc: "getUnquoteType classifies a list as unquote / unquote-splicing, and macroexpand / macroexpand-1 look the head up as a macro, only over an edge that entails the head symbol is not quoted (`!head.quoted`): a quoted head is data for them as it is for eval",
+		Run: func(c *Ctx) []Obligation {
+			const rid = "HEAD.quoted-is-data"
+			var obs []Obligation
+			quotedCls := func(info *types.Info, head string) func(e ast.Expr) (string, bool) {
+				return func(e ast.Expr) (string, bool) {
+					e = ast.Unparen(e)
+					if se, ok := e.(*ast.SelectorExpr); ok && se.Sel.Name == "quoted" && types.ExprString(ast.Unparen(se.X)) == head {
+						return "q", false
+					}
+					if ce, ok := e.(*ast.CallExpr); ok && len(ce.Args) == 0 {
+						if se, ok := ast.Unparen(ce.Fun).(*ast.SelectorExpr); ok && se.Sel.Name == "IsQuoted" && types.ExprString(ast.Unparen(se.X)) == head {
+							return "q", false
+						}
+					}
+					return "", false
+				}
+			}
+			notQuoted := func(v map[string]bool) bool { return v["$has:q"] && !v["q"] }
+			// (a) getUnquoteType
+			if fn, fd, pkg := c.LookupFunc("lisp.getUnquoteType"); fn == nil {
+				obs = append(obs, anchorMissing(rid, "lisp.getUnquoteType"))
+			} else {
+				u := FuncUnit{fn, fd, pkg}
+				info := pkg.TypesInfo
+				fc := c.cfgOf(u, nil)
+				param := ""
+				if fd.Type.Params != nil && len(fd.Type.Params.List) > 0 && len(fd.Type.Params.List[0].Names) > 0 {
+					param = fd.Type.Params.List[0].Names[0].Name
+				}
+				cut := fc.edgesEntailing(quotedCls(info, param+".Cells[0]"), notQuoted)
+				none := c.LookupConst("lisp.unquoteNone")
+				ord := &ordinal{}
+				for _, b := range fc.G.Blocks {
+					if !fc.Live(b) {
+						continue
+					}
+					for _, n := range b.Nodes {
+						rs, ok := n.(*ast.ReturnStmt)
+						if !ok || len(rs.Results) == 0 {
+							continue
+						}
+						if o := identObjOrSel(info, rs.Results[0]); o == nil || o == none {
+							continue
+						}
+						construct := ord.next("return " + types.ExprString(rs.Results[0]))
+						if fc.reachableAvoiding(b, cut) {
+							obs = append(obs, mkOb(c, rid, u, construct, rs, Violated, "a list is classified as an unquote form by the name of its head without a test that the head is not quoted: (quasiquote (a ('unquote x))) substitutes x although the template only mentions the symbol unquote as data", true))
+						} else {
+							obs = append(obs, mkOb(c, rid, u, construct, rs, Proved, "only for an unquoted head", true))
+						}
+					}
+				}
+			}
+			// (b) the macroexpand builtins
+			exp1 := c.LookupPkgFunc("lisp.macroExpand1")
+			for _, name := range []string{"lisp.builtinMacroExpand", "lisp.builtinMacroExpand1"} {
+				fn, fd, pkg := c.LookupFunc(name)
+				if fn == nil || exp1 == nil {
+					obs = append(obs, anchorMissing(rid, name+" / macroExpand1"))
+					continue
+				}
+				u := FuncUnit{fn, fd, pkg}
+				info := pkg.TypesInfo
+				fc := c.cfgOf(u, nil)
+				// the head: the local defined as <form>.Cells[0]
+				head := ""
+				ast.Inspect(fd.Body, func(n ast.Node) bool {
+					as, ok := n.(*ast.AssignStmt)
+					if !ok || len(as.Lhs) != 1 || len(as.Rhs) != 1 {
+						return true
+					}
+					if ix, ok := ast.Unparen(as.Rhs[0]).(*ast.IndexExpr); ok {
+						if k, ok := intConst(info, ix.Index); ok && k == 0 {
+							if se, ok := ast.Unparen(ix.X).(*ast.SelectorExpr); ok && se.Sel.Name == "Cells" {
+								if id, ok := as.Lhs[0].(*ast.Ident); ok {
+									head = id.Name
+								}
+							}
+						}
+					}
+					return true
+				})
+				cut := fc.edgesEntailing(quotedCls(info, head), notQuoted)
+				found := false
+				for _, b := range fc.G.Blocks {
+					if !fc.Live(b) {
+						continue
+					}
+					for _, n := range b.Nodes {
+						ce := nodeCalls(info, n, exp1)
+						if ce == nil {
+							continue
+						}
+						found = true
+						if head == "" {
+							obs = append(obs, mkOb(c, rid, u, "expansion of the head", ce, Undecided, "the head of the form is not a local defined as <form>.Cells[0]", true))
+						} else if fc.reachableAvoiding(b, cut) {
+							obs = append(obs, mkOb(c, rid, u, "expansion of the head", ce, Violated, "the head symbol is looked up and expanded as a macro without a test that it is not quoted: (macroexpand '('inc 41)) expands a form that eval refuses (\"first element of expression is not a function: 'inc\"), so evaluating a macro call and evaluating its macroexpand disagree", true))
+						} else {
+							obs = append(obs, mkOb(c, rid, u, "expansion of the head", ce, Proved, "only for an unquoted head `"+head+"`", true))
+						}
+					}
+				}
+				if !found {
+					obs = append(obs, mkOb(c, rid, u, "expansion of the head", fd, Undecided, "no macroExpand1 call found", true))
+				}
+			}
+			return obs
+		}})
+}
